@@ -69,7 +69,9 @@ Conforms(a, v) ==
    - a Literal member that is ==-equal but differently typed (True for Literal[1])
    - a list offered for a fixed or variadic tuple (converted by the library)
    - str / bytes offered for Sequence[...]                                            *)
+(* Contested: no element is outright non-conforming, and at least one is contested *)
 RECURSIVE Contested(_, _)
+Ok(a, v) == Conforms(a, v) \/ Contested(a, v)
 Contested(a, v) ==
   CASE a.k = "lit" -> \E i \in DOMAIN a.vs : a.vs[i].v = v.v /\ a.vs[i].k # v.k /\ {a.vs[i].k, v.k} \subseteq {"int", "bool"}
     [] a.k \in {"tuple", "vtuple"} ->
@@ -77,12 +79,16 @@ Contested(a, v) ==
               /\ \A i \in DOMAIN El(v) : (Conforms(IF a.k = "vtuple" THEN a.xs[1] ELSE a.xs[i], El(v)[i])
                                         \/ Contested(IF a.k = "vtuple" THEN a.xs[1] ELSE a.xs[i], El(v)[i])))
          \/ (v.k = "tuple" /\ (a.k = "vtuple" \/ Len(v.xs) = Len(a.xs))
+              /\ (\A i \in DOMAIN v.xs : Ok(IF a.k = "vtuple" THEN a.xs[1] ELSE a.xs[i], v.xs[i]))
               /\ \E i \in DOMAIN v.xs : Contested(IF a.k = "vtuple" THEN a.xs[1] ELSE a.xs[i], v.xs[i]))
     [] a.k = "seq" -> \/ v.k \in {"str", "bytes"}
-                      \/ (v.k \in {"list", "tuple", "range"} /\ \E i \in DOMAIN El(v) : Contested(a.xs[1], El(v)[i]))
-    [] a.k \in {"set", "fset"} -> v.k \in {"set", "fset"} /\ \E i \in DOMAIN v.xs : Contested(a.xs[1], v.xs[i])
-    [] a.k = "map" -> v.k = "dict" /\ \E i \in DOMAIN v.xs :
-                         Contested(a.xs[1], v.xs[i].xs[1]) \/ Contested(a.xs[2], v.xs[i].xs[2])
+                      \/ (v.k \in {"list", "tuple", "range"} /\ (\A i \in DOMAIN El(v) : Ok(a.xs[1], El(v)[i]))
+                            /\ \E i \in DOMAIN El(v) : Contested(a.xs[1], El(v)[i]))
+    [] a.k \in {"set", "fset"} -> v.k \in {"set", "fset"} /\ (\A i \in DOMAIN v.xs : Ok(a.xs[1], v.xs[i]))
+                                    /\ \E i \in DOMAIN v.xs : Contested(a.xs[1], v.xs[i])
+    [] a.k = "map" -> v.k = "dict"
+                      /\ (\A i \in DOMAIN v.xs : Ok(a.xs[1], v.xs[i].xs[1]) /\ Ok(a.xs[2], v.xs[i].xs[2]))
+                      /\ \E i \in DOMAIN v.xs : Contested(a.xs[1], v.xs[i].xs[1]) \/ Contested(a.xs[2], v.xs[i].xs[2])
     [] a.k = "union" -> \E i \in DOMAIN a.xs : Contested(a.xs[i], v)
     [] a.k = "alias" -> Contested(a.xs[1], v)
     [] a.k = "flist" -> Contested([k |-> "vtuple", xs |-> a.xs, vs |-> <<>>], v)
@@ -155,6 +161,9 @@ NoVal == V("nothing", 0)
 
 Init == ann \in Anns /\ val \in Vals /\ done = FALSE /\ obs = [acc |-> "pending", stored |-> NoVal]
 
+(* for trace validation: the pair comes from the recorded execution instead of the bounded term sets *)
+InitAny == done = FALSE /\ obs = [acc |-> "pending", stored |-> NoVal]
+
 Accept == done' = TRUE /\ obs' = [acc |-> "yes", stored |-> Norm(ann, val)] /\ UNCHANGED <<ann, val>>
 Reject == done' = TRUE /\ obs' = [acc |-> "no", stored |-> NoVal] /\ UNCHANGED <<ann, val>>
 
@@ -188,8 +197,10 @@ Faithful == (done /\ obs.acc = "yes") =>
 (* C05: containers are stored in their immutable form *)
 RECURSIVE Frozen(_)
 Frozen(v) == v.k \notin {"list", "set"} /\ \A i \in DOMAIN v.xs : Frozen(v.xs[i])
-StoredImmutable == (done /\ obs.acc = "yes" /\ ann.k \notin {"any"} /\ ~(ann.k = "union" /\ \E i \in DOMAIN ann.xs : ann.xs[i].k = "any"))
-                      => (val.xs = <<>> \/ Frozen(obs.stored))
+RECURSIVE HasAny(_)
+HasAny(a) == a.k \in {"any", "callable", "type"} \/ \E i \in DOMAIN a.xs : HasAny(a.xs[i])
+(* (what is accepted under Any is stored as given: nothing is known about it) *)
+StoredImmutable == (done /\ obs.acc = "yes" /\ ~HasAny(ann)) => (val.xs = <<>> \/ Frozen(obs.stored))
 (* a union accepts exactly what one of its alternatives accepts *)
 UnionIsDisjunction == ann.k = "union" => (Conforms(ann, val) <=> \E i \in DOMAIN ann.xs : Conforms(ann.xs[i], val))
 =============================================================================
